@@ -29,9 +29,9 @@ def generate(tier, rng):
                     has_det = mode == 'all-detailed' or (mode == 'mixed' and sel in (2, 3))
                     ndocs = (i + ps + k) % 5 if mode in ('mixed',) else (1 + (i + ps) % 3 if mode == 'all-docs' else 0)
                     if has_msg:
-                        v.msg = 'message of %s "q" {x}' % v.ident if i % 2 else 'mé§'
+                        v.msg = ['message of %s "q" {x}' % v.ident, 'mé§', ''][(i + k) % 3]   # an EMPTY literal is a message too
                     if has_det:
-                        v.det = 'detailed\n%s' % v.ident
+                        v.det = '' if (i + k) % 4 == 2 else 'detailed\n%s' % v.ident
                     v.docs = [DOC_LINES[(k * 3 + i * 5 + j * 7 + ps) % len(DOC_LINES)] for j in range(ndocs)]
                     nm = (i + k) % 4
                     if nm == 1:
